@@ -137,7 +137,7 @@ def cmpM (cfg : GenCfg) (n : Node) (f : Form) (v : Val) (p : List Seg) (op : Op)
   match p with
   | [] => .untouched
   | s :: _ =>
-    match rootOf f with
+    match rootOfC cfg f with
     | .early => .untouched
     | .panic => .panic
     | .nilX =>
